@@ -153,8 +153,14 @@ def execute(plan: dict, ch: Chooser) -> dict:
 
             p.dispatcher_connect(listener)
 
+        seen_dev: list = []
+
         def deliver(mfr: bytes, what: str):
             dev, ad = disc.ble_objects("00:11:22:33:44:18", "Dev", {76: mfr})
+            if seen_dev:
+                dev = seen_dev[0]  # as bleak's scanner does: one BLEDevice object per address for every advertisement
+            else:
+                seen_dev.append(dev)
             try:
                 c._device_detected(dev, ad)
             except Exception as e:  # noqa: BLE001
